@@ -2,6 +2,7 @@ package engines
 
 import (
 	"fmt"
+	"os"
 	"runtime"
 	"strings"
 	"sync"
@@ -177,6 +178,15 @@ func raceSyncHook(kind int) {
 				s.syncSw++
 			}
 		}
+	case 4:
+		// an atomic load (the VM's own poll of its interrupt flag is one, once per instruction): a rare scheduling
+		// point, so that two loads of one operation can be separated by another goroutine's stores
+		if noLoadYield {
+			return
+		}
+		if t.held == 0 && s.nextDec()%64 == 0 {
+			s.yield(t, false)
+		}
 	case 3:
 		// runtime.Gosched(): the task waits for another goroutine to make progress; in a serialised execution it has to
 		// give up the baton or it would spin for ever
@@ -187,6 +197,9 @@ func raceSyncHook(kind int) {
 		s.yieldToOther(t)
 	}
 }
+
+// noLoadYield (VERIF_NO_LOAD_YIELD=1) switches the atomic-load scheduling points off (sensitivity experiments only).
+var noLoadYield = os.Getenv("VERIF_NO_LOAD_YIELD") == "1"
 
 // syncPointsBuilt is set by the instrumented build.
 var syncPointsBuilt bool
@@ -318,7 +331,7 @@ func buildShared(rt *goja.Runtime, specs []sharedSpec) []goja.Value {
 	return vals
 }
 
-const nRaceStmt = 21
+const nRaceStmt = 23
 
 func genRaceProgram(W *core.Track, nshared int) string {
 	var sb strings.Builder
@@ -375,6 +388,9 @@ func genRaceProgram(W *core.Track, nshared int) string {
 			fmt.Fprintf(&sb, "{ var s = SH[%d]; if (typeof s === 'string') { var c1 = s + '\u03b1' + TID, c2 = s + '\u03b2\u03b3' + TID; var c3 = ('\u00e9\u00e8' + '\u00fc\u00f6') + '\u03b1' + TID; out.push(c1.length - String(TID).length, c1.charCodeAt(s.length), c2.charCodeAt(s.length), c1.slice(s.length, s.length + 1) + c2.slice(s.length, s.length + 2), c3.slice(0, 5), c1 === s + '\u03b1' + TID); } }\n", a)
 		case 17: // publish a value created by THIS runtime during the run through the mutex-guarded mailbox
 			fmt.Fprintf(&sb, "{ var s = SH[%d], t = SH[%d]; MB_PUT(typeof s === 'string' && typeof t === 'string' ? [s + t, (s + '|' + t).slice(2), `${t}${s}`, s.toUpperCase(), JSON.stringify([s, t]), s.repeat(2)][%d] : Symbol('mb%d')); }\n", a, b, W.Draw(6), i)
+		case 21, 22: // every Runtime owns its built-ins: deleting, adding and redefining their properties stays inside it
+			tgt := []string{"Math", "JSON", "Reflect", "Promise", "Map.prototype", "Set.prototype", "WeakMap.prototype", "ArrayBuffer.prototype", "DataView.prototype", "Date", "Number", "Array", "Object", "BigInt", "Uint8Array.prototype.__proto__", "Math"}[W.Draw(16)]
+			fmt.Fprintf(&sb, "{ var B = %s, ks = Object.getOwnPropertyNames(B), k0 = ks[%d %% ks.length], k1 = ks[%d %% ks.length]; var had = delete B[k0]; try { B.mine%d = TID; } catch (e) {} try { Object.defineProperty(B, k1, { value: %d, configurable: true, writable: true }); } catch (e) {} var after = Object.getOwnPropertyNames(B); out.push(ks.length, had, after.length, after.indexOf(k0), after.indexOf(''), after.indexOf('mine%d') >= 0, Reflect.ownKeys(B).length, typeof B[k1]); }\n", tgt, W.Draw(64), W.Draw(64), i, i, i)
 		case 18: // use whatever another runtime has published so far (schedule-dependent: executed, not recorded)
 			fmt.Fprintf(&sb, "try { var mv = MB_GET(%d); if (typeof mv === 'string') { mv.length; mv.charCodeAt(3); (mv + 'x').length; mv.toUpperCase(); mv === SH[%d]; mv < SH[%d]; new Map([[mv, 1]]).has(mv); mv.indexOf('\\u00e9'); mv.normalize('NFC'); [...mv].length; } else if (typeof mv === 'symbol') { var mo = {}; mo[mv] = 1; String(mv.description); } } catch (emb) { }\n", W.Draw(8), a, b)
 		default:
@@ -417,6 +433,17 @@ func (m *raceMailbox) install(rt *goja.Runtime) {
 	})
 }
 
+// safeString: rendering a value or an error on the host side converts objects with the script's own toString /
+// valueOf, which a generated program may have removed or broken; that is then a (deterministic) result like any other.
+func safeString(f func() string) (s string) {
+	defer func() {
+		if x := recover(); x != nil {
+			s = "UNPRINTABLE"
+		}
+	}()
+	return f()
+}
+
 func runRaceScript(rt *goja.Runtime, prg *goja.Program, shared []goja.Value, times int, mb *raceMailbox, tid int) (outs []string, errs []string) {
 	mb.install(rt)
 	rt.Set("TID", tid)
@@ -435,11 +462,11 @@ func runRaceScript(rt *goja.Runtime, prg *goja.Program, shared []goja.Value, tim
 			return rt.RunProgram(prg)
 		}()
 		if err != nil {
-			errs = append(errs, err.Error())
+			errs = append(errs, safeString(func() string { return err.Error() }))
 			outs = append(outs, "")
 			continue
 		}
-		outs = append(outs, v.String())
+		outs = append(outs, safeString(func() string { return v.String() }))
 		errs = append(errs, "")
 	}
 	return
